@@ -1110,8 +1110,8 @@ def c14(run):
     run.states += r.distinct
     run.transitions += r.generated
     cases = r.json_prints("CASE")
-    if len(cases) != 3456:
-        raise Machinery("GrpcMC enumerated %d cases, expected the full product of 3456" % len(cases))
+    if len(cases) != 10368:
+        raise Machinery("GrpcMC enumerated %d cases, expected the full product of 10368" % len(cases))
     indir = os.path.join(run.scratch, "in")
     os.makedirs(indir, exist_ok=True)
     vlib.write_ndjson(os.path.join(indir, "grpc_cases.ndjson"), cases)
